@@ -155,7 +155,7 @@ fn check(e: &Expression, recs: Vec<FileRecord>, all_run: bool, case: &str, rep: 
             if (mreq.len() >= 2 || preq.len() >= 2) && deliberate_repeat {
                 rep.nontrivial(&format!("{:?}", e));
             }
-            if rep.samples.len() < 4 && mreq.len() + preq.len() >= 4 && mreq.len() + preq.len() < 9 {
+            if rep.samples.is_empty() || (rep.samples.len() < 4 && mreq.len() + preq.len() >= 4 && mreq.len() + preq.len() < 9) {
                 rep.sample(J::obj(vec![
                     ("expression", J::s(render_default(e).unwrap_or_default())),
                     ("matcher_requests", J::Int(mreq.len() as i128)),
